@@ -40,10 +40,14 @@ type part struct {
 }
 
 type sched struct {
-	parts []*part
-	cur   int
-	trace []string
+	parts    []*part
+	cur      int
+	trace    []string
+	panicked string
 }
+
+// participantPanic is set by runSchedule when a participant of the last executed schedule panicked.
+var participantPanic string
 
 func (s *sched) hook(point, key, block string) {
 	p := s.parts[s.cur]
@@ -55,6 +59,14 @@ func (s *sched) spawn(f func()) {
 	p := &part{resume: make(chan struct{}), yielded: make(chan string)}
 	s.parts = append(s.parts, p)
 	go func() {
+		defer func() {
+			// a panic inside the cache (or on an answer of the wrong type) ends this participant; the run is judged a violation
+			if r := recover(); r != nil {
+				s.panicked = fmt.Sprintf("%v", r)
+				p.done = true
+				p.yielded <- "done"
+			}
+		}()
 		<-p.resume
 		f()
 		p.done = true
@@ -298,6 +310,7 @@ func runSchedule(sc *scenario, choose func(step, nEnabled int) int) (choices, co
 		}
 	}
 	statecache.VerifYield = nil
+	participantPanic = s.panicked
 	final = make([][]result, len(sc.Readers))
 	for ri, ls := range sc.Readers {
 		for _, l := range ls {
@@ -310,6 +323,9 @@ func runSchedule(sc *scenario, choose func(step, nEnabled int) int) (choices, co
 
 // judge returns a description of the first violation, or "".
 func judge(sc *scenario, res, final [][]result) string {
+	if participantPanic != "" {
+		return "a participant panicked during the schedule: " + participantPanic
+	}
 	check := func(l lookup, r result, when string) string {
 		want, found, deleted := sc.truth(l.Key, l.Block)
 		if r.ok {
